@@ -214,6 +214,11 @@ func NewSession(cfg Config) *Session {
 
 func (s *Session) fail(prop, kind, format string, args ...interface{}) {
 	s.Failures = append(s.Failures, Failure{Prop: prop, Kind: kind, Msg: fmt.Sprintf(format, args...), Step: s.Step})
+	// C14 quantifies over "any further history" after a resize: what goes wrong with the data or the
+	// allocator of a resized file is C14's business as well
+	if s.resized && (prop == "C03" || prop == "C04" || prop == "C10") {
+		s.Failures = append(s.Failures, Failure{Prop: "C14", Kind: kind + "-after-resize", Msg: "after a change of the max size: " + fmt.Sprintf(format, args...), Step: s.Step})
+	}
 }
 
 func (s *Session) emit(format string, args ...interface{}) {
